@@ -57,6 +57,7 @@ func pattern(n, seed int) []byte {
 func gen(t *rapid.T) Script {
 	s := Script{UploadConn: rapid.SampledFrom([]int32{65535, 65535, 100000, 1 << 20}).Draw(t, "upconn"), UploadStream: rapid.SampledFrom([]int32{4096, 20000, 65535, 1 << 20}).Draw(t, "upstream")}
 	nDown, nUp := 0, 0
+	paused, stalledOnce := false, false
 	upOpen := map[int]bool{}
 	upHeld := map[int]bool{}
 	live := map[int]bool{} // downloads not reset
@@ -71,6 +72,17 @@ func gen(t *rapid.T) Script {
 		}
 		if len(upHeld) > 0 {
 			kinds = append(kinds, "release")
+		}
+		if paused {
+			kinds = append(kinds, "resume")
+		} else {
+			kinds = append(kinds, "pause")
+			if !stalledOnce && nDown < 8 && nUp < 6 {
+				kinds = append(kinds, "stalled_writer", "stalled_writer")
+			}
+		}
+		if len(upOpen) > 0 {
+			kinds = append(kinds, "upload_violate")
 		}
 		switch k := rapid.SampledFrom(kinds).Draw(t, "kind"); k {
 		case "download":
@@ -116,6 +128,41 @@ func gen(t *rapid.T) Script {
 			u := pick(t, upHeld, "rel")
 			s.Ops = append(s.Ops, Op{Kind: "release", Idx: u})
 			delete(upHeld, u)
+		case "pause":
+			s.Ops = append(s.Ops, Op{Kind: "pause"})
+			paused = true
+		case "resume":
+			s.Ops = append(s.Ops, Op{Kind: "resume"})
+			paused = false
+		case "upload_violate":
+			// WINDOW_UPDATE with a zero increment on the upload's stream: a stream error (RFC 7540 6.9); the
+			// connection, and its flow control, go on
+			u := pick(t, upOpen, "uv")
+			s.Ops = append(s.Ops, Op{Kind: "upload_violate", Idx: u})
+		case "stalled_writer":
+			// the client stops reading while a large download is in flight: the server's frame writer blocks.
+			// Uploads continue meanwhile; one of them draws a stream error whose RST_STREAM cannot be written
+			// yet, and keeps sending DATA (the client has not seen the reset): discarded bytes must be credited.
+			stalledOnce, paused = true, true
+			mode := rapid.SampledFrom([]string{"read-all", "read-none", "close-then-hold"}).Draw(t, "smode")
+			s.Ops = append(s.Ops,
+				Op{Kind: "initial_window", N: 1 << 20}, Op{Kind: "wu_conn", N: 1 << 20}, Op{Kind: "pause"},
+				Op{Kind: "download", Idx: nDown, N: 1 << 20, Chunk: 1 << 20},
+				Op{Kind: "upload_open", Idx: nUp, Mode: mode, N: 100},
+				Op{Kind: "upload_data", Idx: nUp, N: 4096})
+			if rapid.IntRange(0, 3).Draw(t, "viol") != 0 {
+				s.Ops = append(s.Ops, Op{Kind: "upload_violate", Idx: nUp})
+			}
+			for j := 0; j < rapid.IntRange(1, 3).Draw(t, "more"); j++ {
+				s.Ops = append(s.Ops, Op{Kind: "upload_data", Idx: nUp, N: rapid.SampledFrom([]int{1, 1000, 5000, 16384}).Draw(t, "len"), Pad: rapid.SampledFrom([]int{0, 0, 100}).Draw(t, "pad")})
+			}
+			live[nDown] = true
+			nDown++
+			upOpen[nUp] = true
+			if mode != "read-all" {
+				upHeld[nUp] = true
+			}
+			nUp++
 		}
 	}
 	return s
@@ -137,7 +184,8 @@ type download struct {
 	size     int
 	recv     []byte
 	win      int64
-	reset    bool // by the client
+	pend     int64 // INITIAL_WINDOW_SIZE changes announced but not yet acknowledged (the server may have applied them)
+	reset    bool  // by the client
 	ended    bool
 	srvReset bool
 }
@@ -151,6 +199,7 @@ type upload struct {
 	dead     bool // reset by the server or closed
 	release  chan struct{}
 	released bool
+	violated bool // the client drew a stream error on it (and may not have seen the RST_STREAM yet)
 
 	mu   sync.Mutex
 	read int64 // bytes the handler has read
@@ -241,6 +290,7 @@ func exec(t *testing.T, s Script) (viol *vstat.Violation, classes map[string]boo
 		expectConnErr, gotGoAway := false, false
 		gaCode := xhttp2.ErrCode(0)
 		expectStreamErr := map[uint32]bool{}
+		paused := false // the client is not reading
 
 		process := func(step string) *vstat.Violation {
 			frames := peer.Frames()
@@ -348,6 +398,9 @@ func exec(t *testing.T, s Script) (viol *vstat.Violation, classes map[string]boo
 				for range pendingSettings {
 				}
 			case "wu_conn":
+				if paused && connWin+int64(op.N) > maxWin {
+					continue // DATA the client has not read yet lowers the server's view of the window: overflow cannot be predicted
+				}
 				if connWin+int64(op.N) > maxWin {
 					expectConnErr = true
 					classes["overflow-connection-window"] = true
@@ -359,21 +412,33 @@ func exec(t *testing.T, s Script) (viol *vstat.Violation, classes map[string]boo
 				if d.reset {
 					continue
 				}
-				if d.win+int64(op.N) > maxWin && !d.ended && !d.srvReset {
+				if paused && d.win+d.pend+int64(op.N) > maxWin {
+					continue
+				}
+				if d.win+d.pend+int64(op.N) > maxWin && !d.ended && !d.srvReset {
 					expectStreamErr[d.sid] = true
 					classes["overflow-stream-window"] = true
 				}
 				d.win += int64(op.N)
 				peer.Fr.WriteWindowUpdate(d.sid, uint32(op.N))
 			case "initial_window":
+				if paused && len(pendingSettings) > 0 {
+					// x/net acknowledges all SETTINGS frames it processed while its writer was blocked with ONE
+					// ACK (a TODO in processSettings): the ledger, which applies a change when its ACK arrives,
+					// stays exact only with at most one unacknowledged SETTINGS frame
+					continue
+				}
 				old := initWin
 				nv := int64(op.N)
 				// the change reaches open streams when the server processes it; in the ledger at the ACK
 				overflow := false
 				for _, d := range downloads {
-					if !d.ended && !d.reset && !d.srvReset && d.win+(nv-old) > maxWin {
+					if !d.ended && !d.reset && !d.srvReset && d.win+d.pend+(nv-old) > maxWin {
 						overflow = true
 					}
+				}
+				if overflow && paused {
+					continue
 				}
 				if overflow {
 					expectConnErr = true
@@ -381,9 +446,13 @@ func exec(t *testing.T, s Script) (viol *vstat.Violation, classes map[string]boo
 				}
 				initWin = nv
 				ds := append([]*download{}, downloads...)
+				for _, d := range ds {
+					d.pend += nv - old
+				}
 				pendingSettings = append(pendingSettings, func() {
 					for _, d := range ds {
 						d.win += nv - old
+						d.pend -= nv - old
 						if d.win < 0 {
 							classes["negative-stream-window"] = true
 						}
@@ -392,6 +461,9 @@ func exec(t *testing.T, s Script) (viol *vstat.Violation, classes map[string]boo
 				// streams opened after this point start with the new value
 				peer.Fr.WriteSettings(xhttp2.Setting{ID: xhttp2.SettingInitialWindowSize, Val: uint32(op.N)})
 			case "max_frame":
+				if paused && len(pendingSettings) > 0 {
+					continue
+				}
 				nv := int64(op.N)
 				pendingSettings = append(pendingSettings, func() { maxFrame = nv })
 				peer.Fr.WriteSettings(xhttp2.Setting{ID: xhttp2.SettingMaxFrameSize, Val: uint32(op.N)})
@@ -415,6 +487,12 @@ func exec(t *testing.T, s Script) (viol *vstat.Violation, classes map[string]boo
 				u := uploads[op.Idx]
 				if u.dead || u.ended {
 					continue
+				}
+				if u.violated && op.Over {
+					continue
+				}
+				if u.violated && paused {
+					classes["data-on-stream-whose-reset-is-still-queued"] = true
 				}
 				total := int64(op.N)
 				pad := op.Pad
@@ -469,6 +547,25 @@ func exec(t *testing.T, s Script) (viol *vstat.Violation, classes map[string]boo
 					u.released = true
 					close(u.release)
 				}
+			case "pause":
+				if !paused {
+					paused = true
+					peer.PauseReads()
+					classes["client-stops-reading"] = true
+				}
+			case "resume":
+				if paused {
+					paused = false
+					peer.ResumeReads()
+				}
+			case "upload_violate":
+				u := uploads[op.Idx]
+				if u.dead || u.ended || u.violated {
+					continue
+				}
+				u.violated = true
+				classes["stream-error-on-upload"] = true
+				peer.Fr.WriteWindowUpdate(u.sid, 0)
 			case "wait":
 			}
 			rig.Wait()
@@ -478,6 +575,9 @@ func exec(t *testing.T, s Script) (viol *vstat.Violation, classes map[string]boo
 			}
 			if dead {
 				break
+			}
+			if paused {
+				continue // nothing can be judged while the client does not read what the server sends
 			}
 			// quiescence: anything deliverable has been delivered
 			for _, d := range downloads {
@@ -500,7 +600,7 @@ func exec(t *testing.T, s Script) (viol *vstat.Violation, classes map[string]boo
 			var unread int64
 			for _, u := range uploads {
 				u.mu.Lock()
-				if !u.done && !u.dead && u.mode != "close-then-hold" && u.mode != "close-early" {
+				if !u.done && !u.dead && !u.violated && u.mode != "close-then-hold" && u.mode != "close-early" {
 					unread += u.sent - u.read
 				}
 				u.mu.Unlock()
@@ -512,6 +612,14 @@ func exec(t *testing.T, s Script) (viol *vstat.Violation, classes map[string]boo
 			}
 		}
 		// ---- drain: open every window, release every handler, everything must arrive
+		if viol == nil && !dead {
+			if paused {
+				paused = false
+				peer.ResumeReads()
+				rig.Wait()
+				viol = process("resume before drain")
+			}
+		}
 		if viol == nil && !dead {
 			for _, u := range uploads {
 				if !u.released {
@@ -599,7 +707,8 @@ func indexOf(ds []*download, d *download) int {
 }
 
 func TestServer(t *testing.T) {
-	col.Mandatory("blocked-by-window", "reset-mid-body", "negative-stream-window", "overflow->GOAWAY(FLOW_CONTROL)", "over-window-upload->FLOW_CONTROL_ERROR", "padded-upload", "several-downloads-share-connection-window", "upload-handler:close-then-hold", "upload-handler:read-none")
+	col.Mandatory("blocked-by-window", "reset-mid-body", "negative-stream-window", "overflow->GOAWAY(FLOW_CONTROL)", "over-window-upload->FLOW_CONTROL_ERROR", "padded-upload", "several-downloads-share-connection-window", "upload-handler:close-then-hold", "upload-handler:read-none",
+		"client-stops-reading", "stream-error-on-upload", "data-on-stream-whose-reset-is-still-queued")
 	vstat.Run(t, vstat.Spec[Script]{Col: col, Quick: 1500, Thorough: 40000, Gen: gen,
 		Exec: func(s Script) *vstat.Violation {
 			v, cl := exec(t, s)
